@@ -30,6 +30,22 @@ def gen(rng, budget, tier):
                 k = rng.choice(kinds)
                 specs.append(k + (str(rng.randrange(4)) if k in "korx" else ""))
             yield f"c09.keys {','.join(specs) if specs else '-'} {rng.randrange(2)} {rng.randrange(5)}"
+        elif r < 0.72:
+            # one job configuration, several logins in a row against ONE server value: job names shared by the
+            # schedule and the continuous list, allow lists that differ — anything a server keeps between
+            # handshakes (caches keyed too coarsely, leftovers of a rejected attempt) shows here
+            ips = ["10.0.0.1", "10.0.0.2", "127.0.0.1"]
+            jn = ["job1", "job2", "j3"]
+            jobs = []
+            for _ in range(rng.choice([1, 2, 3, 4])):
+                allow = "+".join(rng.sample(ips, rng.randrange(0, 3)))
+                jobs.append(f"{rng.choice('SC')}:{rng.choice(jn[:rng.choice([1, 2, 3])])}:{allow}")
+            atts = []
+            for _ in range(rng.choice([2, 3, 4, 6])):
+                user = rng.choice([b"DTAIL-SCHEDULE", b"DTAIL-CONTINUOUS", b"DTAIL-SCHEDULE", b"DTAIL-CONTINUOUS", b"DTAIL-HEALTH", b"paul"])
+                pw = rng.choice([b"job1", b"job1", b"job2", b"j3", b"DTAIL-HEALTH", b""])
+                atts.append(f"{hexs(user)}:{hexs(pw)}:{hexs(rng.choice(ips).encode())}")
+            yield f"c09.pwseq {';'.join(jobs)} {','.join(atts)}"
         elif r < 0.9:
             names = [b"job1", b"job2", b"DTAIL-HEALTH", b""]
             ips = ["10.0.0.1", "10.0.0.2", "127.0.0.1"]
